@@ -1,11 +1,795 @@
-//! stub
-use crate::checks::{RunRecord, Tier};
-use crate::exec::Scratch;
+//! The recorder scenario (C18): a generated file-system history on tmpfs, then `record_artifacts`
+//! / `in_toto_run` with a scripted actor as the command, optionally under read(2) faults. Oracle: an
+//! independent walk (own recursion over read_dir + metadata, ancestor set on (dev, ino)), one-shot
+//! digests over whole file contents, own longest-prefix strip.
+
+use crate::checks::{site_of, RunRecord, Tier, Trace, Violation};
+use crate::exec::{self, Scratch};
+use crate::gen;
 use crate::oracle::Finding;
+use crate::prng::{Digest, Rng};
+use crate::simio::SimReader;
+use crate::world::{ActorScript, ExitSpec, FsOp};
 use serde::{Deserialize, Serialize};
+use serde_json::{json, Value};
+use std::collections::{BTreeMap, BTreeSet};
+use std::os::unix::fs::MetadataExt;
+use std::path::{Path, PathBuf};
 
 #[derive(Clone, Debug, Serialize, Deserialize, PartialEq)]
-pub struct RecorderTrace {}
-pub fn run_c18(_t: Tier, _s: u64, _i: u64, _sc: &Scratch, _r: &mut RunRecord) {}
-pub fn replay(_p: &str, _t: &RecorderTrace, _sc: &Scratch, _r: &mut RunRecord) -> Vec<Finding> { vec![] }
-pub fn minimise(_p: &str, _c: &str, t: &RecorderTrace, _sc: &Scratch) -> (RecorderTrace, bool) { (t.clone(), false) }
+pub enum TreeOp {
+    Dir(String),
+    File { path: String, size: usize, seed: u64 },
+    /// symbolic link at `path`; `absolute` targets are made absolute below the workspace root
+    Link { path: String, target: String, absolute: bool },
+}
+
+#[derive(Clone, Debug, Serialize, Deserialize, PartialEq)]
+pub struct RunPart {
+    pub name: String,
+    pub actor: ActorScript,
+    pub use_run_dir: bool,
+}
+
+#[derive(Clone, Debug, Serialize, Deserialize, PartialEq)]
+pub struct RecorderTrace {
+    pub tree: Vec<TreeOp>,
+    pub paths: Vec<String>,
+    pub lstrip: Option<Vec<String>>,
+    pub algs: Option<Vec<String>>,
+    /// None: record_artifacts only; Some: in_toto_run with this command
+    pub run: Option<RunPart>,
+    /// read(2) faults while the library runs: (short, eintr, eio) per mille
+    pub read_faults: Option<(u64, u64, u64)>,
+    pub io_seed: u64,
+    /// direct drive of calculate_hashes through a simulated stream instead of the above
+    pub stream: Option<(usize, bool, u64, Option<usize>)>,
+    pub labels: Vec<String>,
+}
+
+pub fn file_content(size: usize, seed: u64) -> Vec<u8> {
+    Rng::stream(seed, "content").bytes(size)
+}
+
+fn build_tree(root: &Path, ops: &[TreeOp]) {
+    for op in ops {
+        match op {
+            TreeOp::Dir(p) => {
+                let _ = std::fs::create_dir_all(root.join(p));
+            }
+            TreeOp::File { path, size, seed } => {
+                let f = root.join(path);
+                if let Some(d) = f.parent() {
+                    let _ = std::fs::create_dir_all(d);
+                }
+                let _ = std::fs::write(f, file_content(*size, *seed));
+            }
+            TreeOp::Link { path, target, absolute } => {
+                let f = root.join(path);
+                if let Some(d) = f.parent() {
+                    let _ = std::fs::create_dir_all(d);
+                }
+                let t = if *absolute { root.join(target).to_string_lossy().to_string() } else { target.clone() };
+                let _ = std::os::unix::fs::symlink(t, f);
+            }
+        }
+    }
+}
+
+// ---------------------------------------------------------------------------------------------
+// the independent walk
+// ---------------------------------------------------------------------------------------------
+pub type Snapshot = BTreeMap<String, BTreeMap<String, String>>;
+
+#[derive(Default, Debug, Clone)]
+pub struct Expect {
+    /// key -> list of distinct files (dev, ino) with their digests that receive this key
+    pub entries: BTreeMap<String, Vec<((u64, u64), BTreeMap<String, String>)>>,
+    /// path prefixes (as recorded) through a cyclic link: whatever lies below is don't-care
+    pub cyclic: Vec<String>,
+    /// dangling links: their own key is don't-care and an error is tolerated
+    pub dangling: Vec<String>,
+    /// the same file is reached twice under one key (overlapping arguments): error or one entry, both fine
+    pub same_file_twice: bool,
+    pub unreadable: bool,
+}
+
+fn clean(p: &str) -> String {
+    let abs = p.starts_with('/');
+    let mut out: Vec<&str> = vec![];
+    for c in p.split('/') {
+        match c {
+            "" | "." => {}
+            ".." => {
+                if let Some(l) = out.last() {
+                    if *l != ".." {
+                        out.pop();
+                        continue;
+                    }
+                }
+                if !abs {
+                    out.push("..");
+                }
+            }
+            x => out.push(x),
+        }
+    }
+    let j = out.join("/");
+    if abs {
+        format!("/{j}")
+    } else if j.is_empty() {
+        ".".to_string()
+    } else {
+        j
+    }
+}
+
+fn strip(path: &str, lstrip: &Option<Vec<String>>) -> String {
+    match lstrip {
+        None => path.to_string(),
+        Some(ps) => {
+            let best = ps.iter().filter(|p| path.starts_with(p.as_str())).max_by_key(|p| p.len());
+            match best {
+                Some(p) => path[p.len()..].to_string(),
+                None => path.to_string(),
+            }
+        }
+    }
+}
+
+fn digests(bytes: &[u8], algs: &[String]) -> BTreeMap<String, String> {
+    let mut m = BTreeMap::new();
+    for a in algs {
+        match a.as_str() {
+            "sha256" => {
+                m.insert(a.clone(), gen::sha256_hex(bytes));
+            }
+            "sha512" => {
+                m.insert(a.clone(), gen::sha512_hex(bytes));
+            }
+            _ => {}
+        }
+    }
+    m
+}
+
+fn walk(p: &str, lstrip: &Option<Vec<String>>, algs: &[String], ancestors: &mut Vec<(u64, u64)>, e: &mut Expect, top: bool) {
+    let md = match std::fs::metadata(p) {
+        Ok(m) => m,
+        Err(_) => {
+            if std::fs::symlink_metadata(p).map(|m| m.file_type().is_symlink()).unwrap_or(false) {
+                // dangling link or a link cycle without a way out
+                e.dangling.push(strip(p, lstrip));
+            } else {
+                e.unreadable = true;
+            }
+            return;
+        }
+    };
+    if md.is_file() {
+        let bytes = std::fs::read(p).unwrap_or_default();
+        let key = strip(p, lstrip);
+        let id = (md.dev(), md.ino());
+        let slot = e.entries.entry(key).or_default();
+        if slot.iter().any(|(i, _)| *i == id) {
+            // the same file under the same key again
+            let _ = top;
+            e.same_file_twice = true;
+        } else {
+            slot.push((id, digests(&bytes, algs)));
+        }
+    } else if md.is_dir() {
+        let id = (md.dev(), md.ino());
+        if ancestors.contains(&id) {
+            e.cyclic.push(p.to_string());
+            e.cyclic.push(strip(p, lstrip));
+            return;
+        }
+        ancestors.push(id);
+        let mut names: Vec<String> = match std::fs::read_dir(p) {
+            Ok(rd) => rd.flatten().map(|d| d.file_name().to_string_lossy().to_string()).collect(),
+            Err(_) => {
+                e.unreadable = true;
+                vec![]
+            }
+        };
+        names.sort();
+        for n in names {
+            let child = if p == "." { n.clone() } else { format!("{}/{}", p, n) };
+            walk(&child, lstrip, algs, ancestors, e, false);
+        }
+        ancestors.pop();
+    }
+}
+
+pub fn expect_for(paths: &[String], lstrip: &Option<Vec<String>>, algs: &[String]) -> Expect {
+    let mut e = Expect::default();
+    for p in paths {
+        let c = clean(p);
+        let mut anc = vec![];
+        walk(&c, lstrip, algs, &mut anc, &mut e, true);
+    }
+    e
+}
+
+// ---------------------------------------------------------------------------------------------
+// execution
+// ---------------------------------------------------------------------------------------------
+#[derive(Debug, Clone)]
+pub struct RecOutcome {
+    pub materials_expect: Expect,
+    pub products_expect: Expect,
+    pub result: Result<(Snapshot, Snapshot, Value), String>,
+    pub err_class: String,
+    pub panic: Option<String>,
+    pub read_stats: (usize, usize, usize, usize),
+    pub stream_result: Option<String>,
+}
+
+fn to_snapshot(m: &BTreeMap<in_toto::models::VirtualTargetPath, in_toto::models::TargetDescription>) -> Snapshot {
+    let v = serde_json::to_value(m).unwrap_or(Value::Null);
+    let mut out = Snapshot::new();
+    if let Some(o) = v.as_object() {
+        for (k, d) in o {
+            let mut dm = BTreeMap::new();
+            if let Some(dd) = d.as_object() {
+                for (a, h) in dd {
+                    dm.insert(a.clone(), h.as_str().unwrap_or("").to_string());
+                }
+            }
+            out.insert(k.clone(), dm);
+        }
+    }
+    out
+}
+
+pub fn run_recorder(t: &RecorderTrace, scratch: &Scratch) -> RecOutcome {
+    // fresh workspace
+    let ws = scratch.ws();
+    let _ = std::fs::remove_dir_all(&ws);
+    std::fs::create_dir_all(&ws).expect("ws");
+    let _ = std::fs::remove_file(scratch.side().join("events.log"));
+    build_tree(&ws, &t.tree);
+    let algs: Vec<String> = t.algs.clone().unwrap_or_else(|| vec!["sha256".to_string()]);
+    std::env::set_current_dir(&ws).expect("chdir ws");
+    let paths: Vec<String> = t.paths.iter().map(|p| p.replace("@WS", &ws.to_string_lossy())).collect();
+    let lstrip: Option<Vec<String>> = t.lstrip.as_ref().map(|v| v.iter().map(|p| p.replace("@WS", &ws.to_string_lossy())).collect());
+    let materials_expect = expect_for(&paths, &lstrip, &algs);
+    if let Some(r) = &t.run {
+        std::fs::write(scratch.side().join("actors").join(format!("{}.json", r.actor.id)), serde_json::to_vec(&r.actor).unwrap()).expect("actor script");
+    }
+    let dev = std::fs::metadata(&ws).map(|m| m.dev()).unwrap_or(0);
+    let t2 = t.clone();
+    let ws2 = ws.clone();
+    let (paths2, lstrip2) = (paths.clone(), lstrip.clone());
+    let r = exec::silenced(|| {
+        exec::in_fresh_thread(t.io_seed, move || {
+            let p: Vec<&str> = paths2.iter().map(|s| s.as_str()).collect();
+            let ls_owned: Option<Vec<&str>> = lstrip2.as_ref().map(|v| v.iter().map(|s| s.as_str()).collect());
+            let al_owned: Option<Vec<&str>> = t2.algs.as_ref().map(|v| v.iter().map(|s| s.as_str()).collect());
+            if let Some((s, e, io)) = t2.read_faults {
+                crate::seams::read_arm(dev, t2.io_seed, s, e, io);
+            }
+            let out: Result<(Snapshot, Snapshot, Value), (String, String)> = match &t2.run {
+                None => in_toto::runlib::record_artifacts(&p, al_owned.as_deref(), ls_owned.as_deref())
+                    .map(|m| (to_snapshot(&m), Snapshot::new(), Value::Null))
+                    .map_err(|e| (exec::err_class(&e), e.to_string())),
+                Some(rp) => {
+                    let cmd = crate::world::actor_cmd(&rp.actor);
+                    let c: Vec<&str> = cmd.iter().map(|s| s.as_str()).collect();
+                    let wsd = ws2.to_string_lossy().to_string();
+                    in_toto::runlib::in_toto_run(&rp.name, if rp.use_run_dir { Some(&wsd) } else { None }, &p, &p, &c, None, al_owned.as_deref(), ls_owned.as_deref())
+                        .map(|mb| match mb.metadata {
+                            in_toto::models::MetadataWrapper::Link(l) => (to_snapshot(&l.materials), to_snapshot(&l.products), json!({"name": l.name, "byproducts": serde_json::to_value(&l.byproducts).unwrap_or(Value::Null)})),
+                            _ => (Snapshot::new(), Snapshot::new(), Value::Null),
+                        })
+                        .map_err(|e| (exec::err_class(&e), e.to_string()))
+                }
+            };
+            let stats = if t2.read_faults.is_some() { crate::seams::read_disarm() } else { (0, 0, 0, 0) };
+            (out, stats)
+        })
+    });
+    let products_expect = expect_for(&paths, &lstrip, &algs);
+    std::env::set_current_dir("/").ok();
+    match r {
+        Ok((Ok(x), stats)) => RecOutcome { materials_expect, products_expect, result: Ok(x), err_class: String::new(), panic: None, read_stats: stats, stream_result: None },
+        Ok((Err((c, m)), stats)) => RecOutcome { materials_expect, products_expect, result: Err(m), err_class: c, panic: None, read_stats: stats, stream_result: None },
+        Err(p) => {
+            crate::seams::read_disarm();
+            RecOutcome { materials_expect, products_expect, result: Err(String::new()), err_class: String::new(), panic: Some(p), read_stats: (0, 0, 0, 0), stream_result: None }
+        }
+    }
+}
+
+fn compare(what: &str, got: &Snapshot, e: &Expect, f: &mut Vec<Finding>) {
+    let dont_care = |k: &str| e.dangling.iter().any(|d| d == k) || e.cyclic.iter().any(|c| k.starts_with(&format!("{}/", c)) || k == c);
+    for (k, files) in &e.entries {
+        if dont_care(k) {
+            continue;
+        }
+        match got.get(k) {
+            None => {
+                f.push(Finding { prop: "C18".into(), clause: format!("{what}-file-not-recorded"), detail: format!("regular file reachable as '{k}' is missing from the recorded {what}") });
+                return;
+            }
+            Some(d) => {
+                if files.len() == 1 && *d != files[0].1 {
+                    f.push(Finding { prop: "C18".into(), clause: format!("{what}-wrong-digest"), detail: format!("'{k}': recorded {:?}, true digests {:?}", d, files[0].1) });
+                    return;
+                }
+                if files.len() > 1 {
+                    f.push(Finding {
+                        prop: "C18".into(),
+                        clause: format!("{what}-key-collision-silently-resolved"),
+                        detail: format!("{} different files receive the key '{k}' and recording succeeded", files.len()),
+                    });
+                    return;
+                }
+            }
+        }
+    }
+    for k in got.keys() {
+        if !e.entries.contains_key(k) && !dont_care(k) {
+            f.push(Finding { prop: "C18".into(), clause: format!("{what}-extra-entry"), detail: format!("'{k}' is recorded but no regular file is reachable under that key") });
+            return;
+        }
+    }
+}
+
+pub fn judge_recorder(t: &RecorderTrace, o: &RecOutcome) -> Vec<Finding> {
+    let mut f = vec![];
+    if let Some(p) = &o.panic {
+        f.push(Finding { prop: "C14".into(), clause: "panic-in-recorder".into(), detail: p.clone() });
+        return f;
+    }
+    let faults = t.read_faults.is_some();
+    let unknown_alg = t.algs.as_ref().map(|a| a.iter().any(|x| x != "sha256" && x != "sha512")).unwrap_or(false);
+    let collisions = o.materials_expect.entries.values().any(|v| v.len() > 1) || (t.run.is_some() && o.products_expect.entries.values().any(|v| v.len() > 1));
+    let tolerated_err = faults
+        || unknown_alg
+        || collisions
+        || o.materials_expect.same_file_twice
+        || o.products_expect.same_file_twice
+        || !o.materials_expect.dangling.is_empty()
+        || !o.products_expect.dangling.is_empty()
+        || o.materials_expect.unreadable
+        || o.products_expect.unreadable;
+    match &o.result {
+        Err(m) => {
+            if let Some(rp) = &t.run {
+                // a command that cannot start, dies by a signal or prints non-UTF-8 legitimately fails the run
+                if !matches!(rp.actor.exit, ExitSpec::Code(_)) || std::str::from_utf8(&rp.actor.stdout).is_err() || std::str::from_utf8(&rp.actor.stderr).is_err() {
+                    return f;
+                }
+            }
+            if !tolerated_err {
+                f.push(Finding { prop: "C18".into(), clause: "valid-tree-rejected".into(), detail: format!("recording failed on a tree with only regular files, directories and resolvable links: {} {}", o.err_class, m) });
+            }
+        }
+        Ok((mats, prods, extra)) => {
+            if unknown_alg {
+                f.push(Finding { prop: "C18".into(), clause: "unknown-algorithm-accepted".into(), detail: format!("{:?}", t.algs) });
+                return f;
+            }
+            compare("materials", mats, &o.materials_expect, &mut f);
+            if let Some(rp) = &t.run {
+                if f.is_empty() {
+                    compare("products", prods, &o.products_expect, &mut f);
+                }
+                if f.is_empty() {
+                    let by = &extra["byproducts"];
+                    let want_out = String::from_utf8_lossy(&rp.actor.stdout).to_string();
+                    let want_err = String::from_utf8_lossy(&rp.actor.stderr).to_string();
+                    let want_code = match rp.actor.exit {
+                        ExitSpec::Code(c) => c as i64,
+                        _ => 0,
+                    };
+                    if by["stdout"].as_str() != Some(want_out.as_str()) || by["stderr"].as_str() != Some(want_err.as_str()) || by["return-value"].as_i64() != Some(want_code) {
+                        f.push(Finding { prop: "C18".into(), clause: "byproducts-differ".into(), detail: format!("recorded {by}, the command printed {:?} / {:?} and exited with {want_code}", want_out, want_err) });
+                    }
+                    if f.is_empty() && extra["name"].as_str() != Some(rp.name.as_str()) {
+                        f.push(Finding { prop: "C18".into(), clause: "name-differs".into(), detail: format!("{}", extra["name"]) });
+                    }
+                }
+            }
+        }
+    }
+    f
+}
+
+/// `calculate_hashes` through a simulated stream.
+fn run_stream(t: &RecorderTrace) -> (Vec<Finding>, String, (usize, usize, usize)) {
+    let (size, chunked, eintr, fail_at) = t.stream.clone().unwrap();
+    let data = file_content(size, t.io_seed);
+    let d2 = data.clone();
+    let seed = t.io_seed;
+    let r = exec::in_fresh_thread(seed, move || {
+        let mut rd = SimReader::new(&d2, seed, chunked, eintr, fail_at);
+        let r = in_toto::crypto::calculate_hashes(&mut rd, &[in_toto::crypto::HashAlgorithm::Sha256, in_toto::crypto::HashAlgorithm::Sha512]);
+        let st = (rd.stats.short, rd.stats.eintr, rd.stats.eio);
+        (
+            r.map(|(n, h)| {
+                let v = serde_json::to_value(&h).unwrap_or(Value::Null);
+                (n, v["sha256"].as_str().unwrap_or("").to_string(), v["sha512"].as_str().unwrap_or("").to_string())
+            })
+            .map_err(|e| e.to_string()),
+            st,
+        )
+    });
+    let mut f = vec![];
+    match r {
+        Err(p) => {
+            f.push(Finding { prop: "C14".into(), clause: "panic-in-digest".into(), detail: p });
+            (f, "panic".into(), (0, 0, 0))
+        }
+        Ok((Ok((n, s256, s512)), st)) => {
+            if n != data.len() as u64 || s256 != gen::sha256_hex(&data) || s512 != gen::sha512_hex(&data) {
+                f.push(Finding { prop: "C18".into(), clause: "stream-wrong-digest".into(), detail: format!("{size} bytes delivered in chunks: size {n}, sha256 {s256}") });
+            }
+            (f, "ok".into(), st)
+        }
+        Ok((Err(e), st)) => {
+            if eintr == 0 && fail_at.is_none() {
+                f.push(Finding { prop: "C18".into(), clause: "stream-fault-free-rejected".into(), detail: e });
+            }
+            (f, "err".into(), st)
+        }
+    }
+}
+
+fn fold(t: &RecorderTrace, o: Option<&RecOutcome>, findings: Vec<Finding>, stream: Option<(String, (usize, usize, usize))>, rec: &mut RunRecord, seed: u64, index: u64, prop: &str) -> Vec<Finding> {
+    rec.evaluations += 1;
+    let mut d = Digest::new();
+    d.update(&rec.log_digest.to_le_bytes());
+    let mut sh = Digest::new();
+    sh.str(&format!("{:?}", t.labels));
+    if let Some(o) = o {
+        let cls = if o.panic.is_some() { "panic" } else if o.result.is_ok() { "ok" } else { "err" };
+        d.str(cls);
+        d.str(&o.err_class);
+        if let Ok((m, p, x)) = &o.result {
+            d.str(&mask_pid(&format!("{:?}{:?}{}", m, p, x)));
+        }
+        sh.str(cls);
+        sh.str(&format!(
+            "{}|{}|{}|{}|{}|{:?}|{:?}|{}",
+            o.materials_expect.entries.len().min(12),
+            o.materials_expect.cyclic.len(),
+            o.materials_expect.dangling.len(),
+            o.materials_expect.same_file_twice,
+            o.materials_expect.entries.values().any(|v| v.len() > 1),
+            t.algs,
+            t.lstrip.as_ref().map(|l| l.len()),
+            t.run.is_some()
+        ));
+        rec.verdicts[match cls {
+            "ok" => 0,
+            "err" => 1,
+            _ => 2,
+        }] += 1;
+        if o.read_stats.1 > 0 {
+            rec.fired.push("R-SHORT".into());
+        }
+        if o.read_stats.2 > 0 {
+            rec.fired.push("R-EINTR".into());
+        }
+        if o.read_stats.3 > 0 {
+            rec.fired.push("R-EIO".into());
+        }
+        if !o.materials_expect.cyclic.is_empty() {
+            rec.probe("link cycle in the recorded tree");
+        }
+        if !o.materials_expect.dangling.is_empty() {
+            rec.probe("dangling link in the recorded tree");
+        }
+        if o.materials_expect.entries.values().any(|v| v.len() > 1) {
+            rec.probe("two different files receive one key");
+        }
+        if o.materials_expect.same_file_twice {
+            rec.probe("one file reached twice (overlapping arguments)");
+        }
+    }
+    if let Some((cls, st)) = &stream {
+        d.str(cls);
+        sh.str(cls);
+        sh.str(&format!("{:?}", t.stream.as_ref().map(|s| (s.0, s.1, s.2 > 0, s.3.is_some()))));
+        if st.0 > 0 {
+            rec.fired.push("CHUNK".into());
+        }
+        if st.1 > 0 {
+            rec.fired.push("EINTR".into());
+        }
+        if st.2 > 0 {
+            rec.fired.push("EIO@offset".into());
+        }
+        rec.verdicts[if cls == "ok" { 0 } else { 1 }] += 1;
+    }
+    rec.log_digest = d.finish();
+    rec.shapes.push((sh.finish(), true));
+    rec.schedules.push(t.io_seed);
+    for l in &t.labels {
+        rec.fired.push(l.clone());
+    }
+    if rec.sample.is_none() {
+        rec.sample = Some(json!({"seed": seed, "labels": t.labels, "tree": t.tree.iter().take(12).collect::<Vec<_>>(), "paths": t.paths, "lstrip": t.lstrip, "algs": t.algs,
+            "run": t.run.as_ref().map(|r| json!({"ops": r.actor.ops.len(), "exit": format!("{:?}", r.actor.exit)})), "read_faults": t.read_faults, "stream": t.stream,
+            "outcome": o.map(|o| match &o.result { Ok((m, p, _)) => format!("Ok: {} materials, {} products", m.len(), p.len()), Err(e) => format!("Err: {e}") })}));
+    }
+    let mut own = vec![];
+    for x in findings {
+        if x.prop == prop {
+            if own.is_empty() {
+                rec.own.push(Violation { seed, index, site: site_of(&x, &[]), finding: x.clone(), trace: Trace::Recorder(t.clone()) });
+            }
+            own.push(x);
+        } else {
+            rec.cross.push(x);
+        }
+    }
+    own
+}
+
+/// scratch paths contain the worker's pid; keep it out of the event-log digest
+fn mask_pid(s: &str) -> String {
+    let mut out = String::new();
+    let mut rest = s;
+    while let Some(i) = rest.find("scsim-") {
+        out.push_str(&rest[..i + 6]);
+        rest = &rest[i + 6..];
+        let digits = rest.chars().take_while(|c| c.is_ascii_digit()).count();
+        out.push('#');
+        rest = &rest[digits..];
+        // and the worker's scratch tag: "/<tag>/"
+        if let Some(r2) = rest.strip_prefix('/') {
+            if let Some(j) = r2.find('/') {
+                rest = &r2[j..];
+            }
+        }
+    }
+    out.push_str(rest);
+    out
+}
+
+fn exec_and_fold(t: &RecorderTrace, scratch: &Scratch, rec: &mut RunRecord, seed: u64, index: u64, prop: &str) -> Vec<Finding> {
+    if t.stream.is_some() {
+        let (f, cls, st) = run_stream(t);
+        return fold(t, None, f, Some((cls, st)), rec, seed, index, prop);
+    }
+    let o = run_recorder(t, scratch);
+    let f = judge_recorder(t, &o);
+    fold(t, Some(&o), f, None, rec, seed, index, prop)
+}
+
+// ---------------------------------------------------------------------------------------------
+// generation
+// ---------------------------------------------------------------------------------------------
+const DIRS: &[&str] = &["d", "e", "sub dir", "d/inner", "\u{fc}n\u{ef}", ".hidden", "a/b/c", "empty"];
+const NAMES: &[&str] = &["f", "g.txt", "with space", ".dot", "\u{e9}t\u{e9}", "x.y.z", "-dash", "f2"];
+const SIZES: &[usize] = &[0, 1, 5, 1023, 1024, 1025, 2048, 8191, 8192, 8193, 100_000];
+
+pub fn gen_trace(seed: u64, tier: Tier) -> RecorderTrace {
+    let mut r = Rng::stream(seed, "recorder");
+    let mut labels = vec![];
+    if r.chance(1, 8) {
+        let size = *r.pick(SIZES);
+        let eintr = *r.pick(&[0u64, 0, 20]);
+        let fail = if r.chance(1, 4) { Some(r.idx(size + 1)) } else { None };
+        return RecorderTrace { tree: vec![], paths: vec![], lstrip: None, algs: None, run: None, read_faults: None, io_seed: r.next(), stream: Some((size, r.chance(4, 5), eintr, fail)), labels: vec!["STREAM".into()] };
+    }
+    let mut tree = vec![];
+    let mut dirs: Vec<String> = vec![];
+    for _ in 0..(1 + r.below(4)) {
+        let d = r.pick(DIRS).to_string();
+        if !dirs.contains(&d) {
+            dirs.push(d.clone());
+            tree.push(TreeOp::Dir(d));
+        }
+    }
+    let mut files: Vec<String> = vec![];
+    for _ in 0..(1 + r.below(6)) {
+        let d = if r.chance(1, 4) { String::new() } else { format!("{}/", r.pick(&dirs)) };
+        let p = format!("{}{}", d, r.pick(NAMES));
+        if !files.contains(&p) && !dirs.contains(&p) {
+            files.push(p.clone());
+            tree.push(TreeOp::File { path: p, size: *r.pick(SIZES), seed: r.next() });
+        }
+    }
+    // symbolic links
+    let n_links = r.weighted(&[35, 35, 20, 10]);
+    let mut links: Vec<String> = vec![];
+    for li in 0..n_links {
+        let d = if r.chance(1, 3) { String::new() } else { format!("{}/", r.pick(&dirs)) };
+        let lp = format!("{}l{}", d, li);
+        let depth = lp.matches('/').count();
+        let up = "../".repeat(depth);
+        let kind = r.below(8);
+        let absolute = r.chance(1, 2);
+        let (target, label): (String, &str) = match kind {
+            0 | 1 => (r.pick(&files).clone(), "LINK-FILE"),
+            2 | 3 => (r.pick(&dirs).clone(), "LINK-DIR"),
+            4 if !links.is_empty() => (r.pick(&links).clone(), "LINK-CHAIN"),
+            5 => ("nowhere".to_string(), "LINK-DANGLING"),
+            6 => {
+                // to an ancestor directory: a cycle
+                let anc = if depth == 0 { ".".to_string() } else { lp.rsplitn(2, '/').nth(1).unwrap_or(".").split('/').next().unwrap_or(".").to_string() };
+                (anc, "LINK-CYCLE")
+            }
+            _ => (r.pick(&files).clone(), "LINK-FILE"),
+        };
+        let t = if absolute { target.clone() } else if target == "." { if depth == 0 { ".".into() } else { up.trim_end_matches('/').to_string() } } else { format!("{}{}", up, target) };
+        labels.push(format!("{}-{}", label, if absolute { "ABS" } else { "REL" }));
+        tree.push(TreeOp::Link { path: lp.clone(), target: t, absolute });
+        links.push(lp);
+    }
+    // path arguments
+    let mut paths: Vec<String> = match r.weighted(&[30, 25, 15, 10, 10, 10]) {
+        0 => vec![".".into()],
+        1 => vec![r.pick(&dirs).clone()],
+        2 => {
+            let mut v: Vec<String> = dirs.iter().take(2).cloned().collect();
+            if r.chance(1, 2) {
+                v.push(r.pick(&files).clone());
+            }
+            v
+        }
+        3 => {
+            labels.push("ARGS-NONNORMAL".into());
+            let d = r.pick(&dirs).clone();
+            vec![format!("./{}/../{}", d, d)]
+        }
+        4 => {
+            labels.push("ARGS-OVERLAP".into());
+            let d = r.pick(&dirs).clone();
+            vec![".".into(), d]
+        }
+        _ => {
+            labels.push("ARGS-ABSOLUTE".into());
+            vec![format!("@WS/{}", r.pick(&dirs))]
+        }
+    };
+    paths.dedup();
+    let lstrip = match r.weighted(&[45, 20, 15, 10, 10]) {
+        0 => None,
+        1 => Some(vec![format!("{}/", r.pick(&dirs))]),
+        2 => {
+            let d = r.pick(&dirs).clone();
+            Some(vec![format!("{}/", d), d.chars().take(1).collect::<String>(), format!("{}/{}", d, "inner/")])
+        }
+        3 => {
+            labels.push("LSTRIP-COLLIDING".into());
+            // stripping two directories' prefixes can make two different files collide
+            Some(dirs.iter().map(|d| format!("{}/", d)).collect())
+        }
+        _ => Some(vec!["@WS/".into(), "zzz/".into()]),
+    };
+    let algs = match r.weighted(&[45, 15, 15, 15, 10]) {
+        0 => None,
+        1 => Some(vec!["sha256".to_string()]),
+        2 => Some(vec!["sha512".to_string()]),
+        3 => Some(vec!["sha256".to_string(), "sha512".to_string()]),
+        _ => {
+            labels.push("ALG-UNKNOWN".into());
+            Some(vec!["md5".to_string()])
+        }
+    };
+    let run = if r.chance(if tier == Tier::Quick { 15 } else { 20 }, 100) {
+        let mut ops = vec![];
+        for _ in 0..r.below(4) {
+            match r.below(4) {
+                0 => ops.push(FsOp::Write { path: format!("{}/created-{}", r.pick(&dirs), r.below(3)), content: gen::text(&mut r) }),
+                1 => ops.push(FsOp::Append { path: r.pick(&files).clone(), content: "appended".into() }),
+                2 => ops.push(FsOp::Remove { path: r.pick(&files).clone() }),
+                _ => ops.push(FsOp::Mkdir { path: format!("{}/newdir", r.pick(&dirs)) }),
+            }
+        }
+        let pool: [&[u8]; 6] = [b"", b"out\n", b"line1\nline2", b"tab\there", b"\xc3\xa9", b"\\n"];
+        let exit = match r.weighted(&[60, 25, 8, 7]) {
+            0 => ExitSpec::Code(0),
+            1 => ExitSpec::Code(*r.pick(&[1, 2, 127, 255])),
+            2 => ExitSpec::Signal(9),
+            _ => ExitSpec::NotFound,
+        };
+        labels.push("RUN".into());
+        Some(RunPart {
+            name: gen::simple_name(&mut r),
+            actor: ActorScript { id: "step".into(), ops, stdout: r.pick(&pool[..]).to_vec(), stderr: r.pick(&pool[..]).to_vec(), exit },
+            use_run_dir: r.chance(1, 2),
+        })
+    } else {
+        None
+    };
+    let read_faults = if r.chance(if tier == Tier::Quick { 15 } else { 30 }, 100) {
+        labels.push("READ-FAULTS".into());
+        Some(match r.below(3) {
+            0 => (400, 0, 0),
+            1 => (200, 100, 0),
+            _ => (200, 50, 30),
+        })
+    } else {
+        None
+    };
+    RecorderTrace { tree, paths, lstrip, algs, run, read_faults, io_seed: r.next(), stream: None, labels }
+}
+
+pub fn run_c18(tier: Tier, seed: u64, index: u64, scratch: &Scratch, rec: &mut RunRecord) {
+    let t = gen_trace(seed, tier);
+    exec_and_fold(&t, scratch, rec, seed, index, "C18");
+}
+
+pub fn replay(prop: &str, t: &RecorderTrace, scratch: &Scratch, rec: &mut RunRecord) -> Vec<Finding> {
+    exec_and_fold(t, scratch, rec, 0, 0, prop)
+}
+
+pub fn minimise(prop: &str, clause: &str, t: &RecorderTrace, scratch: &Scratch) -> (RecorderTrace, bool) {
+    let still = |c: &RecorderTrace| {
+        let mut rec = RunRecord::default();
+        exec_and_fold(c, scratch, &mut rec, 0, 0, prop).iter().any(|f| f.clause == clause)
+    };
+    let mut cur = t.clone();
+    let mut changed = false;
+    for _ in 0..300 {
+        let mut cands = vec![];
+        for i in 0..cur.tree.len() {
+            let mut c = cur.clone();
+            c.tree.remove(i);
+            cands.push(c);
+        }
+        for i in 0..cur.tree.len() {
+            if let TreeOp::File { path, size, seed } = &cur.tree[i] {
+                if *size > 1 {
+                    let mut c = cur.clone();
+                    c.tree[i] = TreeOp::File { path: path.clone(), size: 1, seed: *seed };
+                    cands.push(c);
+                }
+            }
+        }
+        if cur.paths.len() > 1 {
+            for i in 0..cur.paths.len() {
+                let mut c = cur.clone();
+                c.paths.remove(i);
+                cands.push(c);
+            }
+        }
+        if cur.lstrip.is_some() {
+            let mut c = cur.clone();
+            c.lstrip = None;
+            cands.push(c);
+        }
+        if cur.algs.is_some() {
+            let mut c = cur.clone();
+            c.algs = None;
+            cands.push(c);
+        }
+        if cur.read_faults.is_some() {
+            let mut c = cur.clone();
+            c.read_faults = None;
+            cands.push(c);
+        }
+        if let Some(rp) = &cur.run {
+            let mut c = cur.clone();
+            c.run = None;
+            cands.push(c);
+            for i in 0..rp.actor.ops.len() {
+                let mut c = cur.clone();
+                c.run.as_mut().unwrap().actor.ops.remove(i);
+                cands.push(c);
+            }
+        }
+        let mut progress = false;
+        for c in cands {
+            if c != cur && still(&c) {
+                cur = c;
+                changed = true;
+                progress = true;
+                break;
+            }
+        }
+        if !progress {
+            break;
+        }
+    }
+    (cur, changed)
+}
+
+pub fn _unused(_: &PathBuf, _: &BTreeSet<u8>) {}
